@@ -3,6 +3,8 @@ package rules
 import (
 	"fmt"
 	"go/constant"
+
+	"cachelint/poly"
 	"go/token"
 	"go/types"
 	"strings"
@@ -636,6 +638,43 @@ func (c *Ctx) c07Batch(b BK) {
 				}
 				if s.op != "Len" && counts != 1 {
 					r.Bad("R07.4", op, "count-per-entry", c.Pos(p.RetPos), fmt.Sprintf("the counter is incremented %d times per entry, expected once", counts), shortTrace(p))
+					bad = true
+				}
+			}
+			// no early termination of the scan: Range callbacks return true, loops are not left by break/return
+			for _, ev := range p.Events {
+				if ev.Kind == pw.EvLoopEnd && ev.Note == "break" {
+					r.Bad("R07.4", op, "scan-stops-early", c.Pos(ev.Pos), s.op+" leaves its loop early: entries after the first are not processed", shortTrace(p))
+					bad = true
+				}
+				if ev.Kind == pw.EvExit && ev.FnLit != nil && len(ev.Results) == 1 {
+					if t, known := p.Truth(ev.Results[0]); !known || !t {
+						r.Bad("R07.4", op, "scan-stops-early", c.Pos(ev.Pos), s.op+": the sync.Map.Range callback does not return true on every path, the scan stops before all entries are processed", shortTrace(p))
+						bad = true
+					}
+				}
+			}
+			// counters start at zero
+			firstAssign := map[string]bool{}
+			for _, ev := range p.Events {
+				if ev.Kind == pw.EvAssign && ev.Obj != nil && (ev.Obj.Name() == "cnt" || ev.Obj.Name() == "n" || ev.Obj.Name() == "count") && !firstAssign[ev.Obj.Name()] {
+					firstAssign[ev.Obj.Name()] = true
+					if cst, ok := poly.Of(ev.Value, nil).IsConst(); !ok || cst.Sign() != 0 {
+						r.Bad("R07.4", op, "counter-not-zero", c.Pos(ev.Pos), "the per-entry counter does not start at 0", shortTrace(p))
+						bad = true
+					}
+				}
+			}
+			if s.op == "Len" && len(p.Ret) == 1 {
+				rv := p.Ret[0]
+				okRet := rv.Kind == pw.KHavoc || rv.Kind == pw.KArith || rv.Kind == pw.KConst
+				if rv.Kind == pw.KConst {
+					if cst, ok := poly.Of(rv, nil).IsConst(); !ok || cst.Sign() != 0 {
+						okRet = false
+					}
+				}
+				if !okRet {
+					r.Bad("R07.4", op, "len-result", c.Pos(p.RetPos), "Len does not return its entry counter", shortTrace(p))
 					bad = true
 				}
 			}
